@@ -52,10 +52,11 @@ def c05(res, rng, tier):
         for p in range(6):
             elines.append("enc %d %s - %s" % (p, su, toks)); emeta.append((i, p, dump))
     eimpl, emodel = run_enc("C05", elines)
+    from props_enc import LAST_ENV
     # theorem redecode (Proofs/RoundTrip.v): inside its fragment the model's decode -> reify -> encode
     # chain must produce the bytes the implementation produces for the value it decoded
     chain = C.modelrun(["reenc %d %s %s %s" % (emeta[j][1], meta[emeta[j][0]][2], meta[emeta[j][0]][3], meta[emeta[j][0]][1].hex())
-                        for j in range(len(elines))])
+                        for j in range(len(elines))], env=LAST_ENV["C05"])
     in_fragment = 0
     dlines, dmeta = [], []
     for j, eo in enumerate(eimpl):
